@@ -271,8 +271,10 @@ int main(int argc, char **argv) {
     uint16_t   lid = 0xffff;
     if (b.size() >= body && body >= 2) std::memcpy(&lid, b.data() + (b.size() - body), 2);
     // hk: harness kind of the async being issued; from: lid of the library lambda that is forwarding (bcast stages 2, 3)
-    NOTE("OR dest=%d hop=%d hdr=%zu body=%zu lid=%d hk=%d from=%d userdepth=%d", dest, hop, hdr, body, (int)lid, g_cur_hk,
-         g_exec_lid, g_depth);
+    // a library lambda that is executing while no user handler is active is a broadcast stage forwarding: the kind of
+    // whatever async the main program happens to be inside (back-pressure wait) is not this message's kind
+    int hk = (g_exec_lid >= 0 && g_depth == 0) ? -1 : g_cur_hk;
+    NOTE("OR dest=%d hop=%d hdr=%zu body=%zu lid=%d hk=%d from=%d userdepth=%d", dest, hop, hdr, body, (int)lid, hk, g_exec_lid, g_depth);
   };
 #endif
   int rc = 0;
